@@ -9,3 +9,8 @@ import "github.com/relab/hotstuff"
 func VerifWaitTimerExpired(view hotstuff.View) WaitTimerExpiredEvent {
 	return WaitTimerExpiredEvent{currentView: view}
 }
+
+// VerifState exposes the aggregation state of a tree node (read-only) to the /verif harness.
+func (k *Kauri) VerifState() (agg hotstuff.QuorumSignature, senders []hotstuff.ID, aggSent bool, view hotstuff.View) {
+	return k.aggContrib, append([]hotstuff.ID(nil), k.senders...), k.aggSent, k.currentView
+}
